@@ -2,8 +2,8 @@
 
  F1 COUNT-PAIRS      along every success path of every Freelist method the net change of `free_count` equals the net
                      change of listed pages: (+1 per TrunkHeader::set_count(count+1), -1 per set_count(count-1),
-                     +1 per trunk linked [head_page := released page], -1 per page handed out that is not an entry,
-                     i.e. the trunk page itself).  Decided by enumerating the acyclic success paths (the methods are
+                     +1 per trunk linked [head_page := released page], -1 per trunk page that leaves the list
+                     [head_page := next trunk / 0] or is handed out itself — one event when both happen).  Decided by enumerating the acyclic success paths (the methods are
                      loop-free) and summing events.
  F2 ONE-TRUNK        inside allocate/release every Storage::page/page_mut call on a success path takes its page number
                      from the same source (the head trunk): count, next pointer and entry are read from one page.
@@ -141,6 +141,7 @@ def run(ctx):
             dfc = 0
             dlist = 0
             weird = False
+            unlinked = handed = 0
             for bb in p:
                 for k, v, rv in fa.get(bb, []):
                     if k == "add":
@@ -164,6 +165,10 @@ def run(ctx):
                         opl = operand_place(v[1])
                         if opl is not None and not opl[1] and 1 <= opl[0] <= f.nargs:
                             dlist += 1
+                        else:
+                            unlinked += 1     # head_page := next trunk: the current head trunk leaves the list
+                    elif k == "set" and v == 0:
+                        unlinked += 1         # head_page := 0: the last trunk leaves the list
             # pages handed out that are not entries: Ok(Some(head_page)) — detected as a return value originating
             # from a read of self.head_page
             for bb in p:
@@ -173,7 +178,10 @@ def run(ctx):
                         if pl is not None and not pl[1]:
                             k2, p2, _ = f.origin(pl[0])
                             if k2 == "field" and place_fields(p2) and place_fields(p2)[-1] == HP:
-                                dlist -= 1
+                                handed += 1
+            # a trunk page that leaves the list and the trunk page that is handed out are the same event when both happen; a
+            # trunk that is unlinked without being handed out (skipped) still leaves the list
+            dlist -= max(unlinked, handed)
             if weird == "reset":
                 # `free_count = 0` is only sound when nothing is listed any more; treat as a leak-hiding reset
                 bad = (p, "free_count is reset to 0 on a success path (hides pages that were counted free)")
